@@ -274,7 +274,14 @@ def rule_sec_prefix(ctx: Ctx, rep: Report) -> None:
     rep.ob(rule, "hybrid_parity", bool(hy) or ("prefix & 1" in txt or "prefix % 2" in txt), pf.where(), "a hybrid prefix's parity must match y")
 
 
+def rule_own_fields(ctx: Ctx, rep: Report) -> None:
+    """C01.own_fields: an object hands its own fields to the functions it delegates to (see sigcommon.rule_own_fields_forwarded)."""
+    from rules.sigcommon import rule_own_fields_forwarded
+    rule_own_fields_forwarded(ctx, rep, "C01.own_fields", ('btclib.curves',), 6)
+
+
 RULES = [
+    ("C01.own_fields", rule_own_fields),
     ("C01.on_curve", rule_on_curve),
     ("C01.infinity_by_y", rule_infinity_by_y),
     ("C01.reduce", rule_reduce),
